@@ -178,9 +178,28 @@ def run_case(case):
                 mirrored = False
                 if op[2] is not None:
                     R = oracle.random_rotation(np.random.Generator(np.random.PCG64(op[2])))
+                    if op[2] % 4 == 2:
+                        # an exact axis permutation / quarter turn: the description keeps its zeros, in other places (c along x,
+                        # b in the xz plane, an upper-triangular instead of a lower-triangular matrix, ...)
+                        R = oracle.cube_rotations()[(op[2] // 4) % 24]
+                        tag = "set_vec-axes-permuted"
+                        if (op[2] // 4) % 2:
+                            # ... or the other conventional orientation: c along z, b in the yz plane (upper-triangular matrix),
+                            # with exact zeros where the standard orientation has numbers
+                            Hn = []
+                            for Hf in H:
+                                e3 = Hf[2] / np.linalg.norm(Hf[2])
+                                e2 = Hf[1] - (Hf[1] @ e3) * e3
+                                e2 /= np.linalg.norm(e2)
+                                e1 = np.cross(e2, e3)
+                                Hu = Hf @ np.stack([e1, e2, e3], 1)
+                                Hu[1, 0] = Hu[2, 0] = Hu[2, 1] = 0.0
+                                Hn.append(Hu)
+                            H = np.array(Hn)
+                            R = np.eye(3)
                     H = H @ R.T
                     rotated = True
-                    tag = "set_vec-rotated"
+                    tag = "set_vec-rotated" if tag != "set_vec-axes-permuted" else tag
                     if op[2] % 4 == 3:
                         # the same cell described in a left-handed frame (mirror image): lengths and angles depend on the Gram
                         # matrix only, so they are those of the cell; refusing such input with an error is accepted
